@@ -331,9 +331,26 @@ def inst_store_over_regridded_source(kind):
         w = catalog.W(E)
         if kind == "reversed-sum":
             prog = catalog.p_slice(w, catalog._add_concrete(w, E, (1, 1, 4), (1, 4, 1)), catalog.raw_index(E, ((0, 0, -1),)))
+        elif kind == "take-of-stored":
+            prog = catalog.source(w, E, "x", (2,), chunks=[(1, 1)])
         else:
             prog = catalog.p_sliding_sum(w, E, catalog.source(w, E, "x", (4,), chunks=[(1, 1, 1, 1)]), 0)
         coll = w.fn(catalog.NC, "new_collection")(prog.node)
+        if kind == "take-of-stored":
+            # the array store(..., return_stored=True) hands back, indexed with an integer list: the take meets the store step,
+            # whose target slices are a per-block payload that cannot be reordered -- the optimizer has to get through it
+            target = np.empty((2,))
+            stored = w.fn("dask_array.io._store", "store")(coll, target, compute=False, return_stored=True, lock=False)
+            taken = stored[[1, 0, 0]]
+            E.ensure("advertised-shape", tuple(taken.shape) == (3,))
+            for stage in ("simplified", "lowered"):
+                st = catalog.stages(E, w, taken.expr, {stage})[stage]
+                E.ensure(f"{stage}-keeps-the-shape", tuple(st.shape) == (3,))
+            for n in list(w.space.created):
+                real = builtins.type(n).__dict__.get("_symx_real", builtins.type(n))
+                if real.__name__ == "Shuffle":
+                    E.ensure("a-take-is-only-ever-applied-to-arrays", hasattr(n.operands[0], "_meta"))
+            return
         adv = tuple(map(tuple, coll.chunks))
         target = np.empty(tuple(int(sum(c)) for c in adv))
         stored = w.fn("dask_array.io._store", "store")(coll, target, compute=False, return_stored=True, lock=False)
@@ -357,6 +374,14 @@ def inst_store_over_regridded_source(kind):
     def api(values):
         import dask_array as da
 
+        if kind == "take-of-stored":
+            x = np.arange(2.0) + 5
+            r = da.store(da.from_array(x, chunks=1), np.zeros(2), lock=False, return_stored=True, compute=False)
+            try:
+                got = r[[1, 0, 0]].compute(scheduler="sync")
+            except Exception as ex:
+                return dict(ok=False, detail=f"stored[[1, 0, 0]] raised {type(ex).__name__}: {str(ex)[:100]}")
+            return dict(ok=bool(np.array_equal(got, x[[1, 0, 0]])), detail=f"stored[[1, 0, 0]] = {got.tolist()}")
         if kind == "reversed-sum":
             x = np.arange(6.0)
             y = (da.from_array(x, chunks=((1, 1, 4),)) + da.from_array(x * 10, chunks=((1, 4, 1),)))[::-1]
@@ -382,6 +407,7 @@ def instances(tier):
     out = []
     out.append(inst_store_over_regridded_source("reversed-sum"))
     out.append(inst_store_over_regridded_source("sliding-sum"))
+    out.append(inst_store_over_regridded_source("take-of-stored"))
     nbs = [1, 2, 3] if q else [1, 2, 3, 4]
     for m in nbs:
         out.append(inst_store([(m,)], [None]))
